@@ -80,16 +80,22 @@ struct atom_rec : public smt::verif::listener
     std::vector<asrt> asrts;
     void lra_slack(const var &x, const lin &l) override { slacks.emplace(x, l); }
     void lra_assertion(const var &b, int op, const var &x, const inf_rational &v) override { asrts.push_back({b, op, x, v}); }
-    void base_vars(const var &x, std::set<var> &out, int depth = 0) const
+    // the atom's expression over the problem's own variables: slack variables are replaced, with their coefficients, by the rows
+    // they were created from, so that terms introduced by the tableau's pivoting (x = row of x) cancel out again
+    lin base_lin(const var &x, int depth = 0) const
     {
         const auto it = slacks.find(x);
-        if (it == slacks.cend() || depth > 20)
-        {
-            out.insert(x);
-            return;
-        }
+        if (it == slacks.cend() || depth > 40)
+            return lin(x, rational::ONE);
+        lin res;
         for (const auto &[v, c] : it->second.vars)
-            base_vars(v, out, depth + 1);
+            res += base_lin(v, depth + 1) * c;
+        return res;
+    }
+    void base_vars(const var &x, std::set<var> &out) const
+    {
+        for (const auto &[v, c] : base_lin(x).vars)
+            out.insert(v);
     }
 };
 #endif
